@@ -618,7 +618,9 @@ func (t *Topo) Fixture() (string, error) {
 	key := t.Key()
 	fixMu.Lock()
 	defer fixMu.Unlock()
+	fixClock++
 	if d, ok := fixtures[key]; ok {
+		fixUsed[key] = fixClock
 		return d, nil
 	}
 	base := os.Getenv("VERIF_SCRATCH")
@@ -630,8 +632,29 @@ func (t *Topo) Fixture() (string, error) {
 		return "", err
 	}
 	fixtures[key] = root
+	fixUsed[key] = fixClock
+	// long campaigns: keep the most recently used trees only (cases run one
+	// after the other, the tree of the running case is the most recent one)
+	for len(fixtures) > fixKeep {
+		oldest, at := "", fixClock+1
+		for k, u := range fixUsed {
+			if u < at {
+				oldest, at = k, u
+			}
+		}
+		_ = os.RemoveAll(fixtures[oldest])
+		delete(fixtures, oldest)
+		delete(fixUsed, oldest)
+	}
 	return root, nil
 }
+
+const fixKeep = 96
+
+var (
+	fixUsed  = map[string]int64{}
+	fixClock int64
+)
 
 func writeFile(path, content string) error {
 	if err := os.MkdirAll(filepath.Dir(path), 0o755); err != nil {
